@@ -116,6 +116,8 @@ type hist struct {
 	initCust string
 	prev     *obsT
 	token    string
+	enabled0 bool
+	abt0     int64
 	nrcpt    int
 	halted   bool
 
@@ -147,6 +149,8 @@ type obsT struct {
 	Inactive []uint64
 	Active   []uint64
 	Stray    int // deposit records of proposals that are not open
+	Parity   int64 // 1 iff the registered erc20 pair's flag differs from its initial value
+	ABT      int64 // crosschain eth AverageBlockTime
 }
 
 func rel(t time.Time) int64 { return t.Unix() - lib.GenesisTime.Unix() }
@@ -219,6 +223,12 @@ func (h *hist) observe(res int) *obsT {
 	for _, id := range h.ids {
 		o.Bals[id] = h.c.App.BankKeeper.GetBalance(ctx, h.keys[id].Acc(), denomFX).Amount.BigInt()
 	}
+	if h.token != "" {
+		if pair, ok := h.c.App.Erc20Keeper.GetTokenPair(ctx, h.token); ok && pair.Enabled != h.enabled0 {
+			o.Parity = 1
+		}
+	}
+	o.ABT = int64(h.c.App.EthKeeper.GetParams(ctx).AverageBlockTime)
 	lib.Must(gk.InactiveProposalsQueue.Walk(ctx, nil, func(k collections.Pair[time.Time, uint64], v uint64) (bool, error) {
 		o.Inactive = append(o.Inactive, v)
 		return false, nil
@@ -262,7 +272,7 @@ func (o *obsT) coq(ids []int64) string {
 		}
 		return lib.List(s)
 	}
-	return fmt.Sprintf("mk_obs %s %s %s %s %s %s", lib.Z(int64(o.Res)), lib.List(ps), zb(o.Gov), lib.List(bs), u(o.Inactive), u(o.Active))
+	return fmt.Sprintf("mk_obs %s %s %s %s %s %s [%d; %d]", lib.Z(int64(o.Res)), lib.List(ps), zb(o.Gov), lib.List(bs), u(o.Inactive), u(o.Active), o.Parity, o.ABT)
 }
 
 // ---------------------------------------------------------------- error classes
@@ -425,6 +435,11 @@ func newHist(seed int64, idx int, class string) *hist {
 			}))
 		}
 	}
+	if h.token != "" {
+		pair, _ := c.App.Erc20Keeper.GetTokenPair(c.Ctx, h.token)
+		h.enabled0 = pair.Enabled
+	}
+	h.abt0 = int64(c.App.EthKeeper.GetParams(c.Ctx).AverageBlockTime)
 	h.fixed = detectKeyFun(h)
 	lib.Must(c.NextBlock())
 	// initial facts for the model
@@ -557,13 +572,14 @@ func (h *hist) buildMsgs(kind string, info *propInfo) ([]sdk.Msg, []mMsg) {
 	}
 	xparams := func() {
 		p := h.c.App.EthKeeper.GetParams(h.c.Ctx)
-		p.AverageBlockTime = uint64(5000 + r.Intn(3000))
+		abt := 5000 + r.Intn(3000)
+		p.AverageBlockTime = uint64(abt)
 		msgs = append(msgs, &crosschaintypes.MsgUpdateParams{ChainName: "eth", Authority: h.gov, Params: p})
-		mm = append(mm, mMsg{Type: tyXParams, Act: fmt.Sprintf("AOk %d", tag)})
+		mm = append(mm, mMsg{Type: tyXParams, Act: fmt.Sprintf("AOk %d", abt)})
 	}
 	toggle := func(ok bool) {
 		tok := h.token
-		act := fmt.Sprintf("AOk %d", tag)
+		act := fmt.Sprintf("AOk %d", 400000+tag)
 		if !ok || tok == "" {
 			tok = "nosuchtoken"
 			act = "AFail"
@@ -1425,7 +1441,7 @@ func (h *hist) propObs(id uint64) *pObs {
 
 func (h *hist) pickKind() string {
 	r := h.r
-	kinds := []string{"text", "text", "egf", "egf", "xparams", "toggle", "toggle-fail", "egf-fail", "send-fail", "none", "mixed", "badsigner"}
+	kinds := []string{"text", "text", "egf", "egf", "xparams", "xparams", "toggle", "toggle", "toggle-fail", "toggle-fail", "egf-fail", "egf-fail", "send-fail", "none", "mixed", "badsigner"}
 	if h.class == "govsend" {
 		kinds = append(kinds, "send", "send", "send", "send")
 	}
@@ -1576,6 +1592,47 @@ func (h *hist) genVote() {
 	h.opVote(pid, who, opts, true)
 }
 
+// a voting campaign: most validators and delegators vote on one proposal, so that proposals
+// actually pass, get vetoed, or end near the quorum
+func (h *hist) genCampaign() {
+	r := h.r
+	voting := h.openIDs(2)
+	if len(voting) == 0 {
+		h.genVote()
+		return
+	}
+	pid := voting[r.Intn(len(voting))]
+	mood := r.Intn(100)
+	turnout := []int{100, 90, 60, 35}[r.Intn(4)]
+	for _, who := range []int64{0, 1, 2, 10, 11, 12, 13} {
+		if !r.Chance(turnout) || h.halted {
+			continue
+		}
+		opt := 1
+		switch {
+		case mood < 60:
+			if r.Chance(12) {
+				opt = []int{2, 3, 4}[r.Intn(3)]
+			}
+		case mood < 75:
+			opt = 4
+			if r.Chance(30) {
+				opt = 1
+			}
+		default:
+			opt = 1 + r.Intn(4)
+		}
+		if r.Chance(20) {
+			other := 1 + (opt % 4)
+			w := new(big.Int).Quo(new(big.Int).Mul(e18, big.NewInt(int64(1+r.Intn(9)))), big.NewInt(10))
+			rest := new(big.Int).Sub(e18, w)
+			h.opVote(pid, who, [][2]string{{fmt.Sprint(opt), w.String()}, {fmt.Sprint(other), rest.String()}}, true)
+		} else {
+			h.opVote(pid, who, [][2]string{{fmt.Sprint(opt), e18.String()}}, false)
+		}
+	}
+}
+
 func (h *hist) genCancel() {
 	r := h.r
 	open := h.openIDs(0)
@@ -1661,10 +1718,14 @@ func (h *hist) run(nops int) {
 			h.genSubmit()
 		case x < 40:
 			h.genDeposit()
-		case x < 66:
+		case x < 52:
 			h.genVote()
-		case x < 70:
+		case x < 60:
+			h.genCampaign()
+		case x < 64:
 			h.genCancel()
+		case x < 70:
+			h.genDeposit()
 		case x < 78:
 			h.genCustom()
 		case x < 80:
@@ -1698,7 +1759,7 @@ func (h *hist) paramsCoq() string {
 }
 
 func (h *hist) caseCoq() string {
-	return fmt.Sprintf("mk_gov_case %s %s %s %s\n   [%s]", lib.Bool(h.fixed), h.paramsCoq(), h.initBals, h.initCust, strings.Join(h.steps, ";\n    "))
+	return fmt.Sprintf("mk_gov_case %s %s %s %s %d\n   [%s]", lib.Bool(h.fixed), h.paramsCoq(), h.initBals, h.initCust, h.abt0, strings.Join(h.steps, ";\n    "))
 }
 
 // ---------------------------------------------------------------- main
